@@ -264,3 +264,16 @@ R.spec(IS, "_calculate", props=["C17"],
            modifies=["D:*:dict<str,ref:BaseDistribution>", "D:*:dict<str,ref:BaseDistribution>@td"])},
        ensures_all=["only_fresh_modified()"],
        modifies=["D:*:dict<str,ref:BaseDistribution>", "D:*:dict<str,ref:BaseDistribution>@td", "L:*:list<enum:TrialState>", "G:is_tuple"])
+
+
+# --- group decomposition ------------------------------------------------------------------------------------------
+GD = "optuna/search_space/group_decomposed.py"
+import optuna.search_space.group_decomposed as _gd  # noqa: E402
+R.classes.update({"_SearchSpaceGroup": _gd._SearchSpaceGroup, "_GroupDecomposedSearchSpace": _gd._GroupDecomposedSearchSpace})
+R.schema("_SearchSpaceGroup", {"_search_spaces": "list[dict[str, BaseDistribution]]"})
+
+R.spec(GD, "_SearchSpaceGroup.add_distributions", props=["C17"],
+       types={"distributions": "dict[str, BaseDistribution]"},
+       cases=[case("ok", ensures=["True"])],
+       loops={0: loop(index="_i", invariant=["0 <= _i"])},
+       modifies=["*"])
